@@ -843,3 +843,55 @@ def c05_8(R):
     for s in ws:
         if s.bb in after:
             R.ok("window-taken-after-validation", PIM, "last_remote_window stored after remove_up_to_ack")
+
+
+@rule("C17.12", ["C17", "C01", "C18", "C14"], ["E2", "E4"], "what remains to be segmented is computed from the queue as it is after the expired probe was taken back",
+      "split_tx_queue_into_segments computes remaining = tx_len - user_tx_segments.total_len_bytes() and segments that much. pop_expired_mtu_probe may remove the newest segment (and its bytes "
+      "from the count) just before: the total_len_bytes() that feeds `remaining` (the loop's initial value and the value stored in this_poll.unsegmented_data on the final exit) must be read "
+      "AFTER the pop - dominated by the pop_expired_mtu_probe call - or the bytes of a probe that was given up are never segmented again: the stream stalls behind them while "
+      "unsent_data_exists() says nothing is waiting.")
+def c17_12(R):
+    b = R.body(VS + "::split_tx_queue_into_segments")
+    pops = [t for t in b.calls() if call_matches(t, ("Segments::pop_expired_mtu_probe",))]
+    R.require(len(pops) == 1, "one pop_expired_mtu_probe call")
+    pop = pops[0]
+    dom = b.dominators()
+    # the total_len_bytes() values that reach the loop variable `remaining`: walk the final store's value back to its subtraction
+    stores = [s for s in b.stmts() if written_field(b, s) == "ThisPoll.unsegmented_data"]
+    R.floor("stores to this_poll.unsegmented_data", len(stores), 1)
+    seen = set()
+    reads = []
+
+    def walk(op, depth=0):
+        if depth > 10 or op.kind == "const":
+            return
+        t = trace(b, op)
+        if t.kind == "call" and call_matches(t.root[1], ("Segments::total_len_bytes",)):
+            reads.append(t.root[1])
+            return
+        if t.kind == "rv" and t.root[1].rv.kind == "bin":
+            for o in t.root[1].rv.ops:
+                walk(o, depth + 1)
+        elif t.kind == "call" and call_matches(t.root[1], ("saturating_sub", "checked_sub", "wrapping_sub")):
+            for o in t.root[1].args:
+                walk(o, depth + 1)
+        elif t.kind == "multi":
+            if t.root[1] in seen:
+                return
+            seen.add(t.root[1])
+            for d in t.root[3]:
+                if isinstance(d, Stmt) and d.rv.ops:
+                    for o in d.rv.ops:
+                        walk(o, depth + 1)
+    for s in stores:
+        if s.rv.ops:
+            walk(s.rv.ops[0])
+    uniq = {(t.bb, t.idx): t for t in reads}
+    R.floor("total_len_bytes() reads that feed the unsegmented count", len(uniq), 1)
+    for t in uniq.values():
+        if pop.bb in dom.get(t.bb, ()) and (pop.bb != t.bb):
+            R.ok("segmented-count-read-after-pop", b.name, "total_len_bytes() at %s is dominated by pop_expired_mtu_probe" % t.where())
+        else:
+            R.fail([b.name, "total_len_bytes-read-before(pop_expired_mtu_probe)"],
+                   "the segmented byte count that `remaining` is computed from is read before the expired probe is popped: after a probe is given up its bytes are counted as still segmented, so they "
+                   "are never cut into a new segment and the stream stalls behind them", where=t.where(), instance="segmented-count-read-after-pop")
